@@ -111,3 +111,18 @@ pub assume_specification [core::cmp::Ordering::is_lt] (o: core::cmp::Ordering) -
 pub assume_specification [core::cmp::Ordering::is_le] (o: core::cmp::Ordering) -> (r: bool) ensures r == (o != core::cmp::Ordering::Greater);
 pub assume_specification [core::cmp::Ordering::is_gt] (o: core::cmp::Ordering) -> (r: bool) ensures r == (o == core::cmp::Ordering::Greater);
 pub assume_specification [core::cmp::Ordering::is_ge] (o: core::cmp::Ordering) -> (r: bool) ensures r == (o != core::cmp::Ordering::Less);
+pub uninterp spec fn fconst_EPSILON() -> f64;
+#[verifier::external_body]
+pub fn __f64_EPSILON() -> (r: f64) ensures r == fconst_EPSILON() { f64::EPSILON }
+pub uninterp spec fn fconst_MAX() -> f64;
+#[verifier::external_body]
+pub fn __f64_MAX() -> (r: f64) ensures r == fconst_MAX() { f64::MAX }
+pub uninterp spec fn fconst_MIN() -> f64;
+#[verifier::external_body]
+pub fn __f64_MIN() -> (r: f64) ensures r == fconst_MIN() { f64::MIN }
+pub uninterp spec fn fconst_MIN_POSITIVE() -> f64;
+#[verifier::external_body]
+pub fn __f64_MIN_POSITIVE() -> (r: f64) ensures r == fconst_MIN_POSITIVE() { f64::MIN_POSITIVE }
+pub uninterp spec fn fconst_NAN() -> f64;
+#[verifier::external_body]
+pub fn __f64_NAN() -> (r: f64) ensures r == fconst_NAN() { f64::NAN }
